@@ -266,13 +266,13 @@ func c11R4(c *Ctx) {
 					}
 					return false
 				}
-				hitU, pathU := reachFromE(w.Block(), instrIndex(w)+1, isReturn, func(in ssa.Instruction) bool {
+				hitU, pathU := reachFromE(w.Block(), instrIndex(w)+1, isReturn, c.orWrapper("reporter:"+x.reporter, func(in ssa.Instruction) bool {
 					c2, ok := in.(ssa.CallInstruction)
 					if _, isD := in.(*ssa.Defer); isD || !ok {
 						return false
 					}
 					return calleeID(c2.Common()) == x.reporter
-				}, func(from, to *ssa.BasicBlock) bool {
+				}), func(from, to *ssa.BasicBlock) bool {
 					for _, fc := range edgeFactsTo(from, to) {
 						op, a, b, ok := cmpFact(fc)
 						if ok && op == token.EQL && isNilConst(b) && fromW(a) {
@@ -365,14 +365,14 @@ func c11R4(c *Ctx) {
 			if w.tell {
 				// and on every such path, not on some: no exit is reachable under the assumption without a tell
 				no := contradicts(w.as)
-				hit, path := reachFromE(f.Blocks[0], 0, isReturn, func(in ssa.Instruction) bool {
+				hit, path := reachFromE(f.Blocks[0], 0, isReturn, c.orWrapper("tells-peer", func(in ssa.Instruction) bool {
 					ci, isCall := in.(ssa.CallInstruction)
 					if !isCall {
 						return false
 					}
 					id := calleeID(ci.Common())
 					return id == tT+"sendString" || id == tT+"serverExit"
-				}, no)
+				}), no)
 				c.check(hit == nil, name+"/always-tells-peer@"+w.nm, c.pos(f.Pos()), "every exit of the reporter for an error of this kind has told the peer", "the reporter can return for '"+w.nm+"' without having told the peer why (the peer waits out its timeout and ends with the wrong reason)", c.pathStr(path)...)
 			}
 			c.check(any == w.tell, name+"/tells-peer@"+w.nm, c.pos(f.Pos()), "the peer is told about an error exactly when it is still in the protocol (not when the error is its own exit / fail message)", "for '"+w.nm+"' the reporter "+map[bool]string{true: "writes a fail line to a peer that already left (it lands on the remote shell)", false: "does not tell the peer why the transfer failed"}[any])
